@@ -350,7 +350,7 @@ def _table_encoding(rng, *, start_index=None, fill=None, transposed=None, dtype=
         'start_index': pick(rng, [None, 0, 1, 1, '1', '0']) if start_index is None else (None if start_index == 'absent' else start_index),
         'fill': fill or pick(rng, ['nan', 'int_fill', 'none']),
         'transposed': chance(rng, 0.3) if transposed is None else transposed,
-        'dtype': dtype or pick(rng, ['int32', 'int32', 'int64', 'int16']),
+        'dtype': dtype or pick(rng, ['int32', 'int32', 'int64', 'int16', 'uint32']),
         'fill_value': pick(rng, [999999, -1, 9999, -999]),
     }
 
@@ -393,6 +393,8 @@ def make_ugrid(rng, *, mesh=None, winding=None, supplied=None, start_index=None,
         if t['dtype'] == 'int16' and max(mesh.nedge, mesh.nnode, mesh.nface) > 9000:
             t['dtype'] = 'int32'
         # a fill value must lie outside the index range (otherwise the file itself is invalid)
+        if t['dtype'].startswith('uint') and t['fill_value'] < 0:
+            t['fill_value'] = 999999         # an unsigned table cannot hold a negative fill value
         if t['fill_value'] >= 0:
             t['fill_value'] = 999999 if t['dtype'] != 'int16' else 9999
         if str(t['start_index']) == '1' and chance(rng, 0.3):
